@@ -73,7 +73,7 @@ impl Property for C15 {
         Meta {
             id: "C15",
             level: "exploration",
-            rule: "one evaluation = one complete placeholder workflow against the real Builder: placeholder(fmt) -> the simulator embeds the returned bytes at the format's manifest position on a disk image -> set_data_hash_exclusions (1..12 ranges; offsets and lengths drawn around the CBOR integer-width boundaries 23/24, 255/256, 65535/65536 on assets inflated to 40-250 KB) -> update_hash_from_stream over a SimStream with seeded chunking -> sign_embeddable(fmt) -> patch in place -> Reader. Formats JPEG, PNG, GIF, JPEG XL; signer reserve size minimal..+20000; seeded definitions. Oracle: sign_embeddable errs or returns exactly placeholder.len() bytes; the patched image reads Valid/Trusted. Non-trivial = workflow reached sign_embeddable; distinct = (format, number of exclusions, widths of the exclusion integers, reserve size)",
+            rule: "one evaluation = one complete placeholder workflow against the real Builder: placeholder(fmt) -> the simulator embeds the returned bytes at the format's manifest position on a disk image -> set_data_hash_exclusions (1..12 ranges; offsets and lengths drawn around the CBOR integer-width boundaries 23/24, 255/256, 65535/65536 on assets inflated to 40-250 KB) -> update_hash_from_stream over a SimStream with seeded chunking -> sign_embeddable(fmt) -> patch in place -> Reader; half of the runs use the older pair data_hashed_placeholder(reserve) -> caller-built DataHash (same exclusion lists, hash over a chunking SimStream) -> sign_data_hashed_embeddable. Formats JPEG, PNG, GIF, JPEG XL; signer reserve size minimal..+20000; seeded definitions. Oracle: sign_embeddable errs or returns exactly placeholder.len() bytes; the patched image reads Valid/Trusted. Non-trivial = workflow reached sign_embeddable; distinct = (format, number of exclusions, widths of the exclusion integers, reserve size)",
             assumptions: &["BMFF is excluded (documented to outgrow the placeholder with Merkle leaves); TIFF and .c2pa composed manifests are not embedded by the simulator", "only hash-pass chunking is scheduled; the statement demands nothing else"],
             real: &["Builder::placeholder / set_data_hash_exclusions / update_hash_from_stream / sign_embeddable, Reader"],
             stubbed: &["the caller (simulator embeds and patches the disk image)", "asset stream of the hash pass (SimStream)"],
@@ -97,7 +97,7 @@ impl Property for C15 {
         let big = r.chance(2, 3);
         let asset = if big { inflate(fmt, &base, r.usize(1, 4), &mut r) } else { base };
         let extra = *r.pick(&[0usize, 0, 1, 100, 5000, 20_000]);
-        let n_excl = r.usize(1, 12);
+        let n_excl = r.usize(1, 11);
         let chunk = if r.chance(1, 2) { 0 } else { 1 + r.below(5000) as usize };
         let crng = r.fork("c");
         out.evals += 1;
@@ -124,10 +124,18 @@ impl Property for C15 {
             let n = r.usize(1, 600);
             def["assertions"].as_array_mut().unwrap().push(json!({"label": "org.sim.blob", "data": {"b": "x".repeat(n)}}));
         }
-        let tag = format!("{}:{}excl:reserve+{extra}:{}", fmt.name(), n_excl, if big { "big" } else { "tiny" });
+        // half of the runs take the older pair data_hashed_placeholder / sign_data_hashed_embeddable,
+        // where the caller computes the data hash and hands it over
+        let legacy = r.chance(1, 2);
+        let tag = format!("{}:{}excl:reserve+{extra}:{}{}", fmt.name(), n_excl, if big { "big" } else { "tiny" }, if legacy { ":data_hashed_api" } else { "" });
         let res = sdk::guarded(|| -> Result<(usize, Vec<u8>, Vec<u8>, Vec<(u64, u64)>), String> {
             let mut b = Builder::from_shared_context(&ctx).with_definition(def.clone()).map_err(|e| format!("def:{}", err_kind(&e)))?;
-            let ph = b.placeholder(fmt.mime()).map_err(|e| format!("placeholder:{}", err_kind(&e)))?;
+            let signer2 = Reserve { inner: sdk::make_signer("ed25519"), extra };
+            let ph = if legacy {
+                b.data_hashed_placeholder(signer2.reserve_size(), fmt.mime()).map_err(|e| format!("data_hashed_placeholder:{}", err_kind(&e)))?
+            } else {
+                b.placeholder(fmt.mime()).map_err(|e| format!("placeholder:{}", err_kind(&e)))?
+            };
             if ph.is_empty() {
                 return Err("placeholder:empty".into());
             }
@@ -140,19 +148,45 @@ impl Property for C15 {
             let room = image.len().saturating_sub(after);
             let mut rr = r.clone();
             let mut cursor = after as u64;
-            for _ in 1..n_excl {
+            // starts and lengths spread over the CBOR integer widths (1, 2, 3 and 5 bytes) so that
+            // the encoded list differs from the reserved ten-entry list by every possible amount
+            for k in 1..n_excl {
                 if room < 64 {
                     break;
                 }
-                // steer starts/lengths to integer-width boundaries where the file is big enough
-                let want = *rr.pick(&[24u64, 255, 256, 65_535, 65_536, 70_000, 120_000]);
-                let start = if want > cursor && (want as usize) < image.len() - 8 { want } else { cursor + 1 + rr.below(16) };
-                let len = *rr.pick(&[1u64, 2, 23, 24]);
-                if start + len >= image.len() as u64 {
+                let left = (n_excl - k) as u64;
+                let end = image.len() as u64;
+                // leave room for the ranges still to come
+                let len_class = rr.below(3);
+                let mut len = match len_class {
+                    0 => 1 + rr.below(23),
+                    1 => 24 + rr.below(232),
+                    _ => 256 + rr.below(3000),
+                };
+                let jump_far = rr.chance(1, 3);
+                let mut start = if jump_far && cursor < 65_536 && end > 65_536 + 4000 * (left + 1) { 65_536 + rr.below(64) } else { cursor + 1 + rr.below(40) };
+                if start <= cursor {
+                    start = cursor + 1;
+                }
+                if start + len + 8 * left + 8 >= end {
+                    len = 1;
+                }
+                if start + len + 8 * left + 8 >= end {
                     break;
                 }
                 ex.push((start, len));
                 cursor = start + len;
+            }
+            if legacy {
+                let mut dh = c2pa::assertions::DataHash::new("jumbf manifest", "sha256");
+                for (s0, l0) in &ex {
+                    dh.add_exclusion(HashRange::new(*s0, *l0));
+                }
+                let world = stream::new_world(FaultPlan { max_chunk: chunk, ..Default::default() }, Some(crng.clone()));
+                let mut s = SimStream::new(&world, 0, image.clone());
+                dh.gen_hash_from_stream(&mut s).map_err(|e| format!("gen_hash:{}", err_kind(&e)))?;
+                let signed = b.sign_data_hashed_embeddable(&signer2, &dh, fmt.mime()).map_err(|e| format!("sign_data_hashed_embeddable:{}", err_kind(&e)))?;
+                return Ok((ph.len(), signed, image, ex));
             }
             b.set_data_hash_exclusions(ex.iter().map(|(s, l)| HashRange::new(*s, *l)).collect()).map_err(|e| format!("set_excl:{}", err_kind(&e)))?;
             let world = stream::new_world(FaultPlan { max_chunk: chunk, ..Default::default() }, Some(crng.clone()));
